@@ -60,6 +60,10 @@ fn start_contract<const L: usize>()
 #[kani::proof] #[kani::unwind(6)] fn k_tracker_sysevent_start_l4() { start_contract::<4>(); }
 //# id=K.tracker.sysevent.start.L5 props=C03,C12 strength=complete shape="parked list L=5, all contents" tier=thorough fns=SystemEventAccessTracker::start
 #[kani::proof] #[kani::unwind(7)] fn k_tracker_sysevent_start_l5() { start_contract::<5>(); }
+//# id=K.tracker.sysevent.start.L6 props=C03,C12 strength=complete shape="parked list L=6, all contents" tier=thorough fns=SystemEventAccessTracker::start
+#[kani::proof] #[kani::unwind(8)] fn k_tracker_sysevent_start_l6() { start_contract::<6>(); }
+//# id=K.tracker.sysevent.start.L7 props=C03,C12 strength=complete shape="parked list L=7, all contents" tier=thorough fns=SystemEventAccessTracker::start
+#[kani::proof] #[kani::unwind(9)] fn k_tracker_sysevent_start_l7() { start_contract::<7>(); }
 
 // ---------------------------------------------------------------------------------------------------------------
 // K.reader.sysevent: SystemEvent<T>::take (C03, C04): yields the causing event's own payload iff the tracker is reacting AND
